@@ -7,14 +7,14 @@ CONSTANTS
   LMinAll = 0
   TS = {1,2,3}
   ChemPool = 4
-  ChemLayout = "rows_are_layers"
+  ChemLayout = "transposed_if_square"
   UnitAt = "return"
   ULoop = 1
   EvalEffect = "readonly"
   RADS = {8}
   GMS = {64,128}
   Slicing = "layer"
-  Export = TRUE
+  Export = FALSE
 INVARIANT LevelsStrictlyDecreasing
 INVARIANT LayerIsGeometricMean
 INVARIANT ArrayInputOrientation
